@@ -233,3 +233,120 @@ def has_release(ords):
 
 def has_acquire(ords):
     return bool(ords) and all(o in ('Acquire', 'AcqRel', 'SeqCst') for o in ords)
+
+
+# ----------------------------------------------------------------------------------------
+# path-sensitive helpers
+# ----------------------------------------------------------------------------------------
+
+def expr_key(g, e, _d=0):
+    """canonical string of an expression (call results by node site)"""
+    if _d > 25:
+        return '..'
+    k = e[0]
+    if k == 'call':
+        n = g.nodes[e[1]]
+        return 'call@%d.%d' % (n.inst, n.bb)
+    if k in ('ref', 'deref', 'discr', 'idx', 'opaque'):
+        return '%s(%s)' % (k, expr_key(g, e[1], _d + 1))
+    if k in ('fld', 'dc'):
+        return '%s.%s' % (expr_key(g, e[1], _d + 1), e[2])
+    if k == 'cast':
+        return expr_key(g, e[2], _d + 1)
+    if k == 'bin':
+        return '%s(%s,%s)' % (e[1], expr_key(g, e[2], _d + 1), expr_key(g, e[3], _d + 1))
+    if k == 'un':
+        return '%s(%s)' % (e[1], expr_key(g, e[2], _d + 1))
+    if k == 'c':
+        return 'c%s' % e[1]
+    if k == 'param':
+        return 'p%d.%d' % (e[1], e[2])
+    if k == 'phi':
+        return 'phi[%s]' % '|'.join(sorted(expr_key(g, x, _d + 1) for x in e[1]))
+    if k == 'agg':
+        return 'agg:%s{%s}' % (short_fn(e[2]), ','.join(expr_key(g, x, _d + 1) for x in e[4]))
+    return k
+
+
+def stable_cond(g, sid):
+    """key of a switch condition that cannot change between two evaluations in one execution of
+    the root: it mentions no phi and only results of calls that are not on a cycle; else None"""
+    e = g.strip(g.switch_expr(sid))
+    inst = g.nodes[sid].inst
+    entry = g.insts[inst].entry
+    for s in g.walk(e):
+        if s[0] in ('phi', 'rec', 'undef', 'unknown', 'hofarg'):
+            return None
+        if s[0] == 'call':
+            # re-executed within one execution of the instance that tests it?
+            if s[1] in g.reach_after(s[1], blocked={entry}):
+                return None
+    if not g.call_nodes_in(e, deep=False):
+        return None
+    return (expr_key(g, e), inst)
+
+
+def pairing(g, opens, closes, start=None):
+    """typestate DFS: every open is closed before exit / re-open; no close without open.
+    Correlates repeated tests of one stable condition.  -> list of problems (strings)"""
+    x = g.x
+    opens = set(opens)
+    closes = set(closes)
+    problems = []
+    seen = set()
+    start = g.entry if start is None else start
+    stack = [(start, 0, frozenset(), (start,))]
+    exits = set(g.exits)
+    entries = {i.entry: i.id for i in g.insts}
+    # only conditions tested at two or more switch sites can correlate
+    conds = {}
+    for sid in x.switches():
+        if len(g.nodes[sid].succs) > 1:
+            ck = stable_cond(g, sid)
+            if ck is not None:
+                conds.setdefault(ck, set()).add(x.site(sid))
+    tracked = {sid: ck for sid in x.switches() for ck in [stable_cond(g, sid)] if ck is not None and len(conds.get(ck, ())) > 1}
+    steps = 0
+    while stack:
+        nid, st, known, trail = stack.pop()
+        key = (nid, st, known)
+        if key in seen:
+            continue
+        seen.add(key)
+        steps += 1
+        if steps > 400000:
+            problems.append('state space too large')
+            break
+        n = g.nodes[nid]
+        if nid in entries and known:
+            known = frozenset(k for k in known if k[0][1] != entries[nid])
+        if nid in opens:
+            if st == 1:
+                problems.append('second pin while a pin is held at %s' % x.describe(nid))
+                continue
+            st = 1
+        elif nid in closes:
+            if st == 0:
+                problems.append('unpin without pin at %s' % x.describe(nid))
+                continue
+            st = 0
+        if nid in exits:
+            if st == 1:
+                problems.append('return with the pin still held (path through %s)' % ', '.join(x.describe(t) for t in trail[-3:]))
+            continue
+        succs = n.succs
+        if n.kind == 'block' and n.term['k'] == 'switch' and len(succs) > 1:
+            ck = tracked.get(nid)
+            if ck is not None:
+                kd = dict(known)
+                for eid in succs:
+                    sw, v, oth = g.nodes[eid].edge
+                    cls = 'z' if (v is not None and str(v) == '0') else 'nz'
+                    if ck in kd and kd[ck] != cls:
+                        continue
+                    k2 = frozenset(list(known) + [(ck, cls)])
+                    stack.append((eid, st, k2, trail + (eid,)))
+                continue
+        for s in succs:
+            stack.append((s, st, known, trail[-4:] + (s,)))
+    return sorted(set(problems))
